@@ -103,7 +103,7 @@ type c20Runaway struct{}
 // ---------------------------------------------------------------- running one case
 
 func runC20(f []string) string {
-	if len(f) == 3 && f[0] == "sync" {
+	if len(f) == 3 && (f[0] == "sync" || strings.HasPrefix(f[0], "sync@")) {
 		return runC20Sync(f)
 	}
 	if len(f) != 3 || f[0] != "topo" {
@@ -385,7 +385,13 @@ func runC20Sync(f []string) string {
 			}
 			done <- o
 		}()
-		o.node = dbSync.VerifUpdateSlotTopology(node)
+		// sync@<prior restarts>@<minutes since the last one>: where the syncer stands in its retry window (0..2 restarts
+		// within the hour, or any number of them more than an hour ago — then the counter starts again)
+		prior, aged := 0, 0
+		if p := strings.Split(f[0], "@"); len(p) == 3 {
+			prior, aged = atoi(p[1]), atoi(p[2])
+		}
+		o.node = dbSync.VerifUpdateSlotTopology(node, prior, aged)
 	}()
 	var o outT
 	select {
@@ -829,6 +835,10 @@ func genC20(g *gen) {
 		for _, r := range rows {
 			rs = append(rs, strings.Join(r, ","))
 		}
-		g.emit("sync %s %s", strings.Join(names, ","), strings.Join(rs, "/"))
+		skind := "sync"
+		if g.r.Intn(2) == 0 {
+			skind = fmt.Sprintf("sync@%d@%d", g.r.Intn(3), []int{0, 5, 59, 61, 120, 100000}[g.r.Intn(6)])
+		}
+		g.emit("%s %s %s", skind, strings.Join(names, ","), strings.Join(rs, "/"))
 	}
 }
